@@ -91,7 +91,12 @@ where
                     for _ in 0..entry.num_items {
                         let (rest, raw_string) = complete::take_till(|item| item == 0)(remaining)?;
                         // the null byte is still in there.. we need to cut it out.
-                        remaining = &rest[1..];
+                        remaining = rest.get(1..).ok_or_else(|| {
+                            Error::Nom(format!(
+                                "string array of tag {} is not NUL-terminated",
+                                entry.tag
+                            ))
+                        })?;
                         let string = String::from_utf8_lossy(raw_string).to_string();
                         strings.push(string);
                     }
